@@ -32,6 +32,7 @@ def dispatch (op : String) (payload : Json) : R Json :=
   | "diag_scopes" => C15.handleScopes payload
   | "c16_tables" => C16.handleTables payload
   | "c16_main" => C16.handleMain payload
+  | "c16_out" => C16.handleOut payload
   | "resolve_import" => C06.handle payload
   | "import_symbols" => C06.handleSymbols payload
   | "import_spec" => C06.handleSpec payload
